@@ -464,6 +464,17 @@ func BuildJoin(query *Query, joinExpr *sqlparser.JoinTableExpr) error {
 	if err != nil {
 		return err
 	}
+	// a derived table on either side may have started ASYNC calls: the joining query
+	// waits for them and runs the post-processors that put their results in place
+	for _, side := range []*Query{left, right} {
+		side := side
+		query.addPostProcessors(side.postProcessors...)
+		query.wg.Add(1)
+		go func() {
+			side.wg.Wait()
+			query.wg.Done()
+		}()
+	}
 	if joinExpr.Condition.On == nil {
 		expr := new(sqlparser.AndExpr)
 		expr.Left = sqlparser.BoolVal(true)
